@@ -96,7 +96,7 @@ class Adapter(EnvAdapter):
         if tier == "quick":
             out = [
                 # the default constructor: 3x3x3, 100 scrambles, time limit 200
-                _scr("default", 3, 200, 100, 3, 10, mix, via="default"),
+                _scr("default", 3, 200, 100, 4, 8, mix, via="default"),
                 # one random episode up to the default time limit, one that undoes the 100 scrambles (solved at 100)
                 _scr("default_long", 3, 200, 100, 2, 203, mix, via="default", probe_every=67),
                 # the registered easy version: 7 scrambles, time limit 20
@@ -104,6 +104,9 @@ class Adapter(EnvAdapter):
                      probe_every=3),
                 _scr("n2_t3_s1", 2, 3, 1, 6, 6, mix),
                 _scr("n2_t1_s0", 2, 1, 0, 4, 4, ["random"]),
+                # solved exactly at the time limit (both end reasons on the same step) / one step before it
+                _scr("n3_t1_s1", 3, 1, 1, 4, 4, ["solve", "random"]),
+                _scr("n3_t3_s2", 3, 3, 2, 4, 6, ["solve", "random"], probe_every=2),
                 _scr("n4_t20_s7", 4, 20, 7, 3, 23, ["solve", "random", "random"], probe_every=5),
                 _scr("n5_t3_s100", 5, 3, 100, 4, 6, ["random"], probe_every=2),
             ]
